@@ -49,6 +49,12 @@ lemma CountLenFrame(start int, p Periods, q Periods, i int, t int)
     ensures Count(start, p, i, t) == Count(start, q, i, t) && T(start, p, i) == T(start, q, i)
     induction i above 0
 
+// periods that carry a single denomination sum to a single-denomination total
+lemma SumCone(p Periods, n int, d string)
+    requires forall k int :: 0 <= k && k < n ==> p[k].Amount == cone(d, p[k].Amount[d])
+    ensures Sum(p, n) == cone(d, Sum(p, n)[d])
+    induction n above 0
+
 lemma SumNonneg(p Periods, n int)
     requires forall k int :: 0 <= k && k < n ==> cnonneg(p[k].Amount)
     ensures cnonneg(Sum(p, n))
